@@ -128,12 +128,17 @@ func verifC34Run(raw []CORSRule, maxLen int) {
 	preflight := verifBool("preflight")
 	reqMethod := methods[verifPick("reqMethod", 0, 1)]
 	reqHeader := ""
+	var reqHeaders []string
 	if preflight {
-		switch verifPick("reqHeader", 0, 2) {
+		switch verifPick("reqHeader", 0, 4) {
 		case 1:
-			reqHeader = "X-Abc"
+			reqHeader, reqHeaders = "X-Abc", []string{"X-Abc"}
 		case 2:
-			reqHeader = "X-Other"
+			reqHeader, reqHeaders = "X-Other", []string{"X-Other"}
+		case 3:
+			reqHeader, reqHeaders = "X-Abc, X-Other", []string{"X-Abc", "X-Other"}
+		case 4:
+			reqHeader, reqHeaders = "x-other,X-ABD", []string{"x-other", "X-ABD"}
 		}
 	}
 	r := &http.Request{Method: reqMethod, Header: http.Header{}, URL: &url.URL{Path: "/b/k"}}
@@ -159,13 +164,19 @@ func verifC34Run(raw []CORSRule, maxLen int) {
 			continue
 		}
 		if preflight && reqHeader != "" {
-			ok := false
-			for _, ah := range rule.AllowedHeaders {
-				if verifC34RefMatch(verifC34Lower(ah), verifC34Lower(reqHeader)) {
-					ok = true
+			all := true
+			for _, rh := range reqHeaders {
+				ok := false
+				for _, ah := range rule.AllowedHeaders {
+					if verifC34RefMatch(verifC34Lower(ah), verifC34Lower(rh)) {
+						ok = true
+					}
+				}
+				if !ok {
+					all = false
 				}
 			}
-			if !ok {
+			if !all {
 				continue
 			}
 		}
